@@ -51,7 +51,10 @@ namespace details {
             }
             else
             {
-                return read_16bit_uuid( bytes_ ) == attr.uuid;
+                // attributes with a 128 bit type are marked with internal_128bit_uuid in place of a 16 bit type,
+                // which must not be mistaken for the 16 bit UUID 0x0001
+                return attr.uuid != bits( gatt_uuids::internal_128bit_uuid )
+                    && read_16bit_uuid( bytes_ ) == attr.uuid;
             }
         }
 
